@@ -136,6 +136,20 @@ def make_cases(ctx):
                 for i, n in zip(us, ns):
                     setkw(kw, UNITS[i], n)
                 add("c04", s, b, kw, dir_, rng.choice(PDF), None, [UNITS[i] for i in us], [{"u": UNITS[i], "num": n, "den": 1} for i, n in zip(us, ns)])
+            # several units with DECIMAL counts on the sub-day ones (decimal point), in either order of writing: the units add up
+            for _ in range(2 if ctx.quick() else 6):
+                us = rng.sample(["hour", "minute", "second", "day", "week"], rng.choice([2, 2, 3]))
+                if rng.random() < 0.6:
+                    us.sort(key=UNITS.index)           # larger unit first, as people write it
+                qs = [rng.choice([(3, 2), (1, 2), (9, 4), (5, 2), (1, 4), (15, 10), (1, 1), (20, 1), (10, 1)]) if u in ("hour", "minute", "second") else (rng.choice([1, 2, 3]), 1)
+                      for u in us]
+                dir_ = rng.choice(["ago", "in"])
+                parts = ["%s %s" % (numstr(n_, d_), word(u, 2, rng)) for u, (n_, d_) in zip(us, qs)]
+                s = (rng.choice([" ".join(parts), ", ".join(parts), " and ".join(parts)]) + " ago") if dir_ == "ago" else "in " + rng.choice([" ".join(parts), " and ".join(parts)])
+                kw = kw0()
+                for u, (n_, d_) in zip(us, qs):
+                    setkw(kw, u, n_, d_)
+                add("c04", s, b, kw, dir_, rng.choice(PDF), None, list(us), [{"u": u, "num": n_, "den": d_} for u, (n_, d_) in zip(us, qs)])
             # fixed words, with and without a clock time
             for (wd, delta, dir_, counted) in FIXED:
                 kw = kw0()
